@@ -352,6 +352,15 @@ func (fr *Frame) lookupLocal(name string, header *ssa.BasicBlock) (Val, bool) {
 					continue
 				}
 			}
+			// of two candidates that both dominate the header, the one defined deeper in the dominator tree is the value
+			// the variable has there (e.g. the phi of an enclosing inner loop rather than that of the outermost loop)
+			if best != nil && header != nil {
+				bi, ok1 := best.(ssa.Instruction)
+				xi, ok2 := x.(ssa.Instruction)
+				if ok1 && ok2 && bi.Block() != nil && xi.Block() != nil && bi.Block() != xi.Block() && xi.Block().Dominates(bi.Block()) {
+					continue
+				}
+			}
 			best = x
 			bestAddr = d.IsAddr
 		}
@@ -846,6 +855,11 @@ func (e *Env) trCall(n *ECall) Val {
 		e.fail("len of %s", n.Args[0])
 	case "cap":
 		a := e.tr(n.Args[0])
+		if a.Ty != nil {
+			if _, isChan := a.Ty.Underlying().(*types.Chan); isChan {
+				return Val{T: app(u.chanCapFn(), a.T), S: "Int", Ty: intT}
+			}
+		}
 		return Val{T: app("sl_cap", a.T), S: "Int", Ty: intT}
 	case "nrunes": // number of code points of a string
 		a := e.tr(n.Args[0])
